@@ -33,9 +33,8 @@ static time_t h_time(time_t *t) { if (t) *t = 1234567890; return 1234567890; }
 #include "lib/dns_helpers.c"
 #include "lib/fmt.c"
 
-/* dotip6() of qsmtpd/antispam.c: the file drags in control files, netio and logging, so only this
- * function is taken, textually, by extracting it at build time is not possible here; it is
- * re-declared through the include below with everything else stubbed. */
+/* dotip6() of qsmtpd/antispam.c: the whole file is included (its other functions are renamed
+ * out of the way and never called; what they reference is stubbed below). */
 #define check_rbl h_unused_check_rbl
 #define tarpit h_unused_tarpit
 #define domainmatch h_unused_domainmatch
